@@ -60,8 +60,145 @@ func execProject(c *core.Ctx, worker string, p *gen.Project, idx int, skip strin
 		f.Write(append(b, '\n'))
 		f.Close()
 	}
+	if header != nil {
+		if _, want := header["outfiles"]; want {
+			appendOutputEvents(rc, p, root)
+		}
+	}
 	rc.Events = core.CountLines(rc.Trace)
 	return rc
+}
+
+// appendOutputEvents parses the V (daily), Y (yearly) and C (crop) result files of the run and appends one event per
+// record: the result files are part of the trace (C05, C16).
+func appendOutputEvents(rc *runCase, p *gen.Project, root string) {
+	f, err := os.OpenFile(rc.Trace, os.O_APPEND|os.O_WRONLY, 0644)
+	if err != nil {
+		return
+	}
+	defer f.Close()
+	emit := func(m map[string]interface{}) {
+		m["run"] = p.Name
+		b, _ := json.Marshal(m)
+		f.Write(append(b, '\n'))
+	}
+	dir := filepath.Join(root, "RESULT_"+p.Name)
+	ext := p.Cfg.ResultExt
+	if ext == "" {
+		ext = "RES"
+		if p.Cfg.ResultFormat == 1 {
+			ext = "csv"
+		}
+	}
+	id := p.PolyID + p.PlotNr
+	parse := func(kind, prefix string, ncols int) {
+		var colsDef []gen.OutCol
+		switch kind {
+		case "daily":
+			colsDef = pDaily(p)
+		case "yearly":
+			colsDef = pYearly(p)
+		default:
+			colsDef = pCrop(p)
+		}
+		b, err := os.ReadFile(filepath.Join(dir, prefix+id+"."+ext))
+		if err != nil {
+			emit(map[string]interface{}{"ev": "out.missing", "kind": kind})
+			return
+		}
+		lines := strings.Split(strings.ReplaceAll(string(b), "\r\n", "\n"), "\n")
+		for i, ln := range lines {
+			if i == 0 || strings.TrimSpace(ln) == "" { // one headline
+				continue
+			}
+			var fields []string
+			nfields := 0
+			if p.Cfg.ResultFormat == 1 {
+				fields = strings.Split(ln, ",")
+				nfields = len(fields)
+			} else {
+				// fixed-width style: every column is its width plus one fill character; cut by position
+				rs := []rune(ln)
+				pos := 0
+				for _, cdef := range colsDef {
+					w := cdef.Width
+					if w == 0 {
+						w = 12
+					}
+					if pos+w > len(rs) {
+						break
+					}
+					fields = append(fields, strings.TrimSpace(string(rs[pos:pos+w])))
+					pos += w + 1
+				}
+				nfields = len(fields)
+				if pos != len(rs) {
+					nfields = -len(rs) // the record does not have the width of the configured columns
+				}
+				for len(fields) < 8 {
+					fields = append(fields, "")
+				}
+			}
+			e := map[string]interface{}{"ev": "out." + kind, "fields": nfields, "cols": ncols, "rec": i}
+			if kind == "crop" {
+				e["crop"] = strings.TrimSpace(fields[0])
+				if len(fields) > 7 {
+					e["hyear"] = atoi(fields[7])
+					e["hdoy"] = atoi(fields[6])
+					e["sowdoy"] = atoi(fields[2])
+					e["emerg"], e["anth"], e["mat"] = atoi(fields[3]), atoi(fields[4]), atoi(fields[5])
+				}
+			} else {
+				e["n"] = parseDateText(strings.TrimSpace(fields[0]), p.Cfg.DateFormat)
+			}
+			emit(e)
+		}
+		emit(map[string]interface{}{"ev": "out.end", "kind": kind})
+	}
+	if p.Cfg.OutInt > 0 {
+		parse("daily", "V", len(pDaily(p)))
+	}
+	parse("yearly", "Y", len(pYearly(p)))
+	parse("crop", "C", len(pCrop(p)))
+}
+
+func atoi(s string) int {
+	n := 0
+	fmt.Sscanf(strings.TrimSpace(s), "%d", &n)
+	return n
+}
+
+func pDaily(p *gen.Project) []gen.OutCol  { return p.DailyColumns() }
+func pYearly(p *gen.Project) []gen.OutCol { return p.YearlyColumns() }
+func pCrop(p *gen.Project) []gen.OutCol   { return p.CropColumns() }
+
+// parseDateText converts a rendered date (with "." separators) to a day number; -1 if it is not a valid calendar date.
+func parseDateText(s string, format int) int {
+	parts := strings.Split(s, ".")
+	if len(parts) != 3 {
+		return -1
+	}
+	a, b, y := atoi(parts[0]), atoi(parts[1]), atoi(parts[2])
+	d, m := a, b
+	if format == 2 || format == 3 {
+		m, d = a, b
+	}
+	if format == 0 || format == 2 {
+		if y >= 50 {
+			y += 1900
+		} else {
+			y += 2000
+		}
+	}
+	if m < 1 || m > 12 || d < 1 || d > 31 {
+		return -1
+	}
+	n := gen.DayNum(y, m, d)
+	yy, mm, dd := gen.YMD(n)
+	if yy != y || mm != m || dd != d {
+		return -1
+	}
+	return n
 }
 
 // execAll runs the projects in parallel.
